@@ -27,7 +27,7 @@ RULE = ("datasets per family (daily current+legacy+developer, billing, hourly wi
 ASSUMPTIONS = ["same machine, same library builds: cross-platform bit-equality is not claimed",
                "hourly models are fitted with an explicit seed (seed=None draws from the global RNG and is outside the statement)"]
 REQUIRED_REACH = {"dataset.hourly_seed_0": 2, "dataset.compared": 6, "context.executions": 30, "context.fresh_process": 6, "context.warmed": 4, "context.hashseed_random": 4,
-                  "context.concurrent": 2, "context.batch_permuted": 2, "context.omp4": 2, "context.near_duplicates": 4, "context.other_configurations_first": 6, "context.hashseed_fixed_other": 18}
+                  "context.concurrent": 2, "context.batch_permuted": 2, "context.omp4": 2, "context.near_duplicates": 4, "context.other_configurations_first": 6, "context.hashseed_fixed_other": 18, "context.serialised_after_other_fits": 6}
 REQUIRED_REACH_THOROUGH = {"context.cold_numba_cache": 1}
 
 VIOL = []
@@ -72,7 +72,8 @@ def contexts(spec, tier):
           ("perturbed-global-rng", dict(perturb_rng=True, ctx_seed=spec["n"] + 77), {"PYTHONHASHSEED": "0"}),
           ("batch-permuted", dict(batch=[2, "TARGET", 1] if spec["n"] % 2 else [1, 2, "TARGET"]), {"PYTHONHASHSEED": "0"}),
           ("after-near-duplicate-meters", dict(near_dups=6, ctx_seed=spec["n"] + 31), {"PYTHONHASHSEED": "0"}),
-          ("model-object-reused-after-another-meter", dict(reuse_model_object=True), {"PYTHONHASHSEED": "0"})]
+          ("model-object-reused-after-another-meter", dict(reuse_model_object=True), {"PYTHONHASHSEED": "0"}),
+          ("serialised-after-other-meters-were-fitted", dict(serialise_later=True), {"PYTHONHASHSEED": "0"})]
     if not q:
         cs += [("threads-unset", dict(), {"OMP_NUM_THREADS": None, "OPENBLAS_NUM_THREADS": None, "MKL_NUM_THREADS": None, "PYTHONHASHSEED": "0"}),
                ("combined", dict(warm=4, perturb_rng=True, ctx_seed=spec["n"] + 9, batch=["TARGET", 2, 1]), dict(T4, PYTHONHASHSEED="random"))]
@@ -110,6 +111,8 @@ def run_case(spec):
             I.reach("context.batch_permuted")
         if "near-duplicate" in name:
             I.reach("context.near_duplicates")
+        if "serialised-after" in name:
+            I.reach("context.serialised_after_other_fits")
     conc = spec.get("concurrent", 0)
     for i in range(conc):
         procs.append(("concurrent-%d-of-%d" % (i + 1, conc), run_ctx(spec, dict(), {"PYTHONHASHSEED": "0"})))
